@@ -560,7 +560,9 @@ class Engine:
 
     def __init__(self, rlimit: int = 3_000_000, timeout_ms: int = 20000,
                  max_paths: int = 100000, max_decisions: int = 4000, div_check: bool = True,
-                 fp_model: bool = False):
+                 fp_model: bool = False, pin_check: bool = False, nl_axioms_in_feasibility: bool = True):
+        self.pin_check = pin_check
+        self.nl_axioms_in_feasibility = nl_axioms_in_feasibility
         self.fp_model = fp_model
         self.fp_ops = 0
         self.rlimit = rlimit
@@ -578,6 +580,7 @@ class Engine:
         self.decisions: List[bool] = []
         self.pc: List[z3.BoolRef] = []
         self.axioms: List[z3.BoolRef] = []
+        self._lin_memo: Dict[int, bool] = {}
         self.model: Optional[z3.ModelRef] = None
         self.maybe_infeasible = False
         self.summaries: Dict[Tuple[str, str], Tuple[z3.ArithRef, list]] = {}
@@ -632,12 +635,31 @@ class Engine:
         self.fresh_n = 0
         self.fp_ops = 0
 
+    def linear_part(self):
+        out = []
+        memo = self._lin_memo
+        for l in self.axioms + self.pc:
+            k = l.get_id()
+            v = memo.get(k)
+            if v is None:
+                v = memo[k] = is_linear(l)
+            if v:
+                out.append(l)
+        return out
+
     def add_axiom(self, t):
         """definitional constraint / assumption: part of every later query on this path"""
         t = z3.simplify(t) if not isinstance(t, bool) else z3.BoolVal(t)
         if z3.is_true(t):
             return
         self.axioms.append(t)
+        if not self.nl_axioms_in_feasibility:
+            lin = is_linear(t)
+            self._lin_memo[t.get_id()] = lin
+            if not lin:
+                # kept for the obligations only: path feasibility is decided without it (over-approximation of the
+                # feasible paths, sound for exploration; keeps the feasibility queries in linear arithmetic)
+                return
         self._assert(t)
         if self.model is not None and self._model_says(t) is not True:
             self.model = None
@@ -751,7 +773,7 @@ class Engine:
             self.add_axiom(ax)
         # summary/concrete coherence: when the path condition pins every argument to one number, the summary is enclosed
         # around the libm value (so that it agrees with the same function evaluated natively on the other side of a comparison)
-        if fname in _s.LIBM:
+        if self.pin_check and fname in _s.LIBM:
             vals = [self._pinned_value(a) for a in args]
             if all(x is not None for x in vals):
                 try:
